@@ -99,7 +99,7 @@ impl Prop for C02P {
         vec![Profile::Chk, Profile::Wrap]
     }
     fn units(&self, tier: Tier) -> Vec<String> {
-        let n = tier.pick(4, 6);
+        let n = tier.pick(4, 8);
         let mut v = Vec::new();
         for (c, r) in shapes(n) {
             v.push(format!("O {}x{}", c, r));
@@ -110,7 +110,7 @@ impl Prop for C02P {
             v.push(format!("DLV {}x{}", c, r));
             v.push(format!("DLM {}x{}", c, r));
         }
-        let nn = tier.pick(3, 4);
+        let nn = tier.pick(3, 5);
         for (c, r) in shapes(nn) {
             if c >= 2 && r >= 2 || tier == Tier::Thorough {
                 for (i, _) in windows(c, r).iter().enumerate() {
@@ -174,7 +174,7 @@ impl Prop for C02P {
             .into()
     }
     fn bound(&self, tier: Tier) -> String {
-        format!("shapes and parents up to {0}x{0}, all windows; nested windows of parents up to {1}x{1}", tier.pick(4, 6), tier.pick(3, 4))
+        format!("shapes and parents up to {0}x{0}, all windows; nested windows of parents up to {1}x{1}", tier.pick(4, 8), tier.pick(3, 5))
     }
 }
 
